@@ -11,6 +11,7 @@ V: Trace_C14.tla replays the recorded history through the spec's own FitCall ope
 import itertools
 import warnings
 
+import math
 import numpy as np
 
 from .common import Q, Qc, Machinery, import_virocon
@@ -393,6 +394,9 @@ FIXED_DATA = {
                                               1.01503371738, 1.06235378795, 1.09066140667, 1.00898642768, 1.04257121636,
                                               1.00534952197, 1.12886925658, 1.05366419793, 1.02504207297, 1.0293728285,
                                               1.118522374, 0.99254896431, 1.02104183007, 0.918980424, 0.99726772269)]),
+    # (d) conditioning values up to 325 (Hs in centimetres, directions in degrees): the error at the default start
+    #     (1, 1, 1) is 1e282, trf stops at the first iterate with "xtol satisfied" and the start is returned as the fit
+    "exp3-x325": dict(x=[25.0 + 50 * k for k in range(7)], y=[0.291 * math.exp(-0.00206 * (25.0 + 50 * k)) for k in range(7)]),
     "exp3-8pts": dict(x=[3.165178296821977, 4.95019434472089, 5.126942778720538, 7.206066184389611,
                          7.473320373909797, 7.616005795665915, 7.876765040064615, 7.910974208582914],
                       y=[2.23936033084433, 2.186679465146297, 2.1821759880921525, 2.152817559009799,
@@ -413,6 +417,8 @@ def fit_cases(ctx):
                         cons=ckind, aslist=False, fixed="exp3-smallmag", n=15, noise=0.0, seed=0))
     out.append(dict(shape=(exp3[0], exp3[1], (-33.15, 33.85, 0.00984), None, False), weights="none", cons="active_list", aslist=False,
                     fixed="exp3-10pts-active", n=10, noise=0.0, seed=0))
+    out.append(dict(shape=(exp3[0], exp3[1], (0.0, 0.291, -0.00206), exp3[3][0], False), weights="none", cons="none", aslist=False,
+                    fixed="exp3-x325", n=7, noise=0.0, seed=0))
     asym = [sh for sh in shapes() if sh[0] == "asymdecrease3"][0]
     out.append(dict(shape=(asym[0], asym[1], (99.86, 44.07, 1.4112609), asym[3][0], False), weights="none", cons="none", aslist=False,
                     fixed="asym3-mag100", n=20, noise=0.0, seed=0))
